@@ -77,6 +77,19 @@ MANIFEST = {
 F_LIST = "C15-list-item-target-in-dump"
 F_NESTED = "C15-nested-chain"
 F_SKIPPED = "C15-skipped-link-target-dropped"
+
+
+def _target_held(l, root):
+    """some place holds a value for the link's target (the Lean class `skippedHolding` says "some place": the
+    namespace path, or — since the strip also visits them (repair F70) — the items of a list held by the dest)"""
+    from jsonargparse import Namespace
+
+    if l["target"] in root:
+        return True
+    dest, sep, rest = l["target"].partition(".init_args.")
+    if sep and dest in root and isinstance(root[dest], list):
+        return any(isinstance(it, Namespace) and ("init_args." + rest) in it for it in root[dest])
+    return False
 F_EMPTYSUB = "C15-subcommand-section-emptied"
 ENV_PREFIX = "C15"
 
@@ -848,7 +861,7 @@ def oracle(case, deep=True):
                         fail("link target %s appears in the items of the list in the %s dump" % (l["target"], fmt), F_LIST)
             # --- re-parse
             if set_attr is None and root is not None and any(
-                    l["target"] in root and recompute(l, spec, root) is None for l in links):
+                    _target_held(l, root) and recompute(l, spec, root) is None for l in links):
                 set_attr = F_SKIPPED    # a skipped link (subclass source absent) whose target holds a supplied / default value
             if text is not None:
                 try:
